@@ -9,14 +9,22 @@
    of a stored event are functions of its ancestry (and no pass ever fails): any two reachable states (any insertion
    orders, any cuts, any node) over one universe assign the same values to the events they share
    (C03_round_function_of_ancestry, C03_lamport_function_of_ancestry,
-   C03_strongly_see_function_of_ancestry, C03_order_independent_shared).  The full
-   order-independence / prefix statements (which also cover which events get admitted, frames and
-   blocks) are kept as Definitions below; the check evaluates them on every generated DAG (harness
-   cmd/sim -dagrun). *)
+   C03_strongly_see_function_of_ancestry, C03_order_independent_shared); (5) stage C
+   (Proofs/AdmitOrder.v): WHICH events get admitted does not depend on the order either: two
+   topological orders of one fork-free set of attempts let in the same events
+   (C03_admission_order_independent), hence give the same observation for every identifier
+   (C03_order_independent); a topological run over a superset of the attempts admits a superset
+   (C03_admission_monotone); delivered blocks of any two runs over one universe are equal position
+   by position (C03_blocks_order_consistent, from C01) - the NUMBER of blocks delivered so far may
+   differ (a round stays flagged decided when a late witness arrives after its decision, and
+   waits for that witness when it arrives before), so "all results equal" holds as prefix
+   consistency, not as equality of the sequences.  The literal statement without the premises
+   (fork freedom) is false: C03_order_independent_statement_refuted.  The check evaluates the
+   statements on every generated DAG (harness cmd/sim -dagrun). *)
 From Coq Require Import ZArith List Bool Permutation.
 From V Require Import Model.ZMap Model.Quorum Model.Voting Model.VotingRef Model.HgImpl Model.HgBatch
   Proofs.VotingProofs Proofs.VotingTheorems Proofs.BatchRefute Proofs.AdmissionProofs Proofs.BlockInv
-  Proofs.OrderProofs Proofs.Static Proofs.Agreement Proofs.AgreementU.
+  Proofs.OrderProofs Proofs.Static Proofs.Agreement Proofs.AgreementU Proofs.AdmitOrder Proofs.BlockAgree.
 Import ListNotations.
 Open Scope Z_scope.
 
@@ -99,14 +107,13 @@ Proof.
 Qed.
 Print Assumptions C03_strongly_see_function_of_ancestry.
 
-(* FULL STATEMENTS not yet proved (evaluated on every generated DAG by the check) *)
+(* The full statements *)
 Definition is_topological (evs : list event) : Prop :=
   forall i e, nth_error evs i = Some e ->
     (e_sp e = -1 \/ exists j p, (j < i)%nat /\ nth_error evs j = Some p /\ e_id p = e_sp e) /\
     (e_op e = -1 \/ exists j p, (j < i)%nat /\ nth_error evs j = Some p /\ e_id p = e_op e).
 Definition obs (st : hg) (x : Z) := option_map (fun e => (ev_round e, ev_lt e)) (get_event st x).
-(* the observation of a shared event does not depend on the order / cut (proved part of the statement
-   below: what is missing there is that the same events get ADMITTED under every topological order) *)
+(* the observation of a shared event does not depend on the order / cut *)
 Theorem C03_order_independent_shared :
   forall genesis all self1 self2 oracle1 oracle2 ops1 ops2 x,
   ids_determine all -> no_accept all -> Forall (hop_ok all) ops1 -> Forall (hop_ok all) ops2 ->
@@ -116,13 +123,76 @@ Theorem C03_order_independent_shared :
 Proof. exact (fun g all s1 s2 o1 o2 ops1 ops2 x ID NA H1 H2 => u_obs g all ID NA s1 s2 o1 o2 ops1 ops2 H1 H2 x). Qed.
 Print Assumptions C03_order_independent_shared.
 
+(* ADMISSION IS ORDER INDEPENDENT: two topological orders (parents attempted first) of one set of
+   attempts - any events: bad signatures, wrong indexes, unknown creators included - over a
+   fork-free universe with distinct identifiers, static membership, let in the same events.  The
+   two runs may even belong to different nodes (self, oracle). *)
+Theorem C03_admission_order_independent : forall genesis evs evs' self1 self2 oracle1 oracle2,
+  Permutation evs evs' -> is_topological evs -> is_topological evs' ->
+  ids_determine evs -> fork_free evs -> no_accept evs -> (forall e, In e evs -> 0 <= e_id e) ->
+  forall x, get_event (run (init_hg self1 genesis oracle1) evs) x <> None <->
+            get_event (run (init_hg self2 genesis oracle2) evs') x <> None.
+Proof.
+  exact (fun g evs evs' s1 s2 o1 o2 P T1 T2 ID FF NA NN x =>
+           admitted_order_independent g evs evs' P T1 T2 ID FF NA NN s1 s2 o1 o2 x).
+Qed.
+Print Assumptions C03_admission_order_independent.
+
+(* THE ORDER-INDEPENDENCE STATEMENT, with the premises it needs *)
+Theorem C03_order_independent : forall genesis evs evs' self1 self2 oracle1 oracle2,
+  Permutation evs evs' -> is_topological evs -> is_topological evs' ->
+  ids_determine evs -> fork_free evs -> no_accept evs -> (forall e, In e evs -> 0 <= e_id e) ->
+  forall x, obs (run (init_hg self1 genesis oracle1) evs) x = obs (run (init_hg self2 genesis oracle2) evs') x.
+Proof.
+  exact (fun g evs evs' s1 s2 o1 o2 P T1 T2 ID FF NA NN x =>
+           obs_order_independent g evs evs' P T1 T2 ID FF NA NN s1 s2 o1 o2 x).
+Qed.
+Print Assumptions C03_order_independent.
+
+(* a sub-DAG: every event a run admits is admitted by any topological run that attempts (at least)
+   the admitted events of the first - in particular by a run over a superset of the attempts *)
+Theorem C03_admission_monotone : forall genesis all self1 self2 oracle1 oracle2 ops1 evs2,
+  ids_determine all -> fork_free all -> no_accept all ->
+  Forall (hop_ok all) ops1 -> Forall (hop_ok all) (map HInsert evs2) -> is_topological evs2 ->
+  let st1 := hrun (init_hg self1 genesis oracle1) ops1 in
+  let st2 := hrun (init_hg self2 genesis oracle2) (map HInsert evs2) in
+  (forall x es, get_event st1 x = Some es -> In (ev_e es) evs2) ->
+  forall x, get_event st1 x <> None -> get_event st2 x <> None.
+Proof.
+  exact (fun g all s1 s2 o1 o2 ops1 evs2 ID FF NA H1 H2 T =>
+           admitted_incl g all ID FF NA s1 o1 ops1 s2 o2 evs2 H1 H2 T).
+Qed.
+Print Assumptions C03_admission_monotone.
+
+(* the delivered blocks of two runs over one universe - any orders, any cuts - agree position by
+   position (C01_agreement restated for [run]) *)
+Theorem C03_blocks_order_consistent : forall genesis all evs1 evs2 self1 self2 oracle1 oracle2 k d1 d2,
+  ids_determine all -> sigkeys_determine all -> no_accept all -> fork_free all ->
+  Forall (hop_ok all) (map HInsert evs1) -> Forall (hop_ok all) (map HInsert evs2) ->
+  nth_error (delivered (hrun (init_hg self1 genesis oracle1) (map HInsert evs1))) k = Some d1 ->
+  nth_error (delivered (hrun (init_hg self2 genesis oracle2) (map HInsert evs2))) k = Some d2 ->
+  cbody d1 = cbody d2.
+Proof.
+  exact (fun g all evs1 evs2 s1 s2 o1 o2 k d1 d2 ID SK NA FF H1 H2 =>
+           blocks_agree g all ID SK NA FF s1 s2 o1 o2 (map HInsert evs1) (map HInsert evs2) k d1 d2 H1 H2).
+Qed.
+Print Assumptions C03_blocks_order_consistent.
+
+(* THE PREFIX STATEMENT (literal, no premise): attempting more events only appends blocks *)
+Theorem C03_prefix : forall genesis evs more,
+  exists l, map b_txs (delivered (run (init_hg (-1) genesis []) (evs ++ more)))
+          = map b_txs (delivered (run (init_hg (-1) genesis []) evs)) ++ l.
+Proof. exact (fun g evs more => delivered_txs_prefix (-1) g [] evs more). Qed.
+Print Assumptions C03_prefix.
+
+(* REFUTED: the order-independence statement WITHOUT fork freedom.  Two first events a, b of one
+   creator: [a; b] admits a, [b; a] admits b (Proofs/AdmitOrder.v: ow_a, ow_b). *)
 Definition C03_order_independent_statement : Prop :=
   forall genesis evs evs', Permutation evs evs' -> is_topological evs -> is_topological evs' ->
     forall x, obs (run (init_hg (-1) genesis []) evs) x = obs (run (init_hg (-1) genesis []) evs') x.
-Definition C03_prefix_statement : Prop :=
-  forall genesis evs more,
-    exists l, map b_txs (delivered (run (init_hg (-1) genesis []) (evs ++ more)))
-            = map b_txs (delivered (run (init_hg (-1) genesis []) evs)) ++ l.
+Theorem C03_order_independent_statement_refuted : ~ C03_order_independent_statement.
+Proof. exact ow_refuted. Qed.
+Print Assumptions C03_order_independent_statement_refuted.
 
 (* non-vacuity of the S2/S3 theorems: the C01 example (two nodes, 24 / 17 events of one DAG) *)
 Example C03_example_functions :
@@ -137,4 +207,16 @@ Example C03_example_functions :
   obs st2 16 = Some (Some 8, Some 16) /\
   strongly_see st1 16 13 g = Some true /\ strongly_see st2 16 13 g = Some true /\
   strongly_see st1 16 16 g = Some false /\ strongly_see st2 16 16 g = Some false.
+Proof. vm_compute. repeat split; reflexivity. Qed.
+
+(* non-vacuity of C03_order_independent: the same 24 events, the first two swapped (both topological) *)
+Example C03_example_orders :
+  let g := [mkPeer 100 0; mkPeer 101 1] in
+  let ev k := mkEvent k (k mod 2) (k / 2) (if k <? 2 then -1 else k - 2) (if k <? 2 then -1 else k - 1) k
+                      (Z.even (k / 3)) (100 - k) [k] [] [] true in
+  let evs := map ev (zseq 0 24) in
+  let evs' := ev 1 :: ev 0 :: map ev (zseq 2 22) in
+  fork_freeb evs = true /\ no_acceptb evs = true /\
+  map (obs (run (init_hg (-1) g []) evs)) (zseq 0 24) = map (obs (run (init_hg (-1) g []) evs')) (zseq 0 24) /\
+  obs (run (init_hg (-1) g []) evs') 16 = Some (Some 7, Some 15).
 Proof. vm_compute. repeat split; reflexivity. Qed.
